@@ -66,7 +66,16 @@ func (c *vCtx) run() {
 			id = -1 // the default not-found chain (http.NotFound)
 		}
 	}
-	vChains = append(vChains, vChain{id: id, params: map[string]string(c.params)})
+	own := map[string]string{}
+	vx.MapOrders(false) // the harness's own copy loop is not part of what iteration orders are explored for
+	for k, v := range c.params {
+		own[k] = v
+	}
+	vx.MapOrders(vx.ParamInt("maporders") == 1)
+	vChains = append(vChains, vChain{id: id, params: own})
+	if c.params != nil {
+		c.params["zz-note"] = "1" // a handler may keep a note in the bind parameters of its own request
+	}
 }
 
 func vMarker(id int) Handler { return func() { vMark = id } }
@@ -212,6 +221,21 @@ func vExpected(method string, path string, header http.Header) (int, func(int, m
 	}
 }
 
+// vEscapeAll percent-encodes every byte of p except '/' (a valid RawPath for p).
+func vEscapeAll(p string) string {
+	out := make([]byte, 0, 3*len(p))
+	for i := 0; i < len(p); i++ {
+		b := p[i]
+		if b == '/' {
+			out = append(out, '/')
+			continue
+		}
+		hi, lo := int(b>>4), int(b&15)
+		out = append(out, '%', byte(hi+'0'+vx.Ite(hi > 9, 7, 0)), byte(lo+'0'+vx.Ite(lo > 9, 7, 0)))
+	}
+	return string(out)
+}
+
 func VH_Router_serve() {
 	n := vx.ParamInt("n")
 	method := vx.Param("method")
@@ -231,6 +255,11 @@ func VH_Router_serve() {
 		}
 	}
 	req := &http.Request{Method: method, URL: &url.URL{Path: path}, Header: header}
+	if vx.ParamInt("raw") == 1 && vx.Bool() {
+		// the client sent the path percent-encoded (net/http then keeps the original
+		// text in URL.RawPath): routing is by the decoded URL.Path all the same
+		req.URL.RawPath = vEscapeAll(path)
+	}
 	w := &vNullWriter{}
 
 	if vx.ParamInt("maporders") == 1 {
@@ -282,7 +311,7 @@ func VH_Router_serve() {
 		// C10: the same request answered by full tree matching
 		tree, ok := vRouter.routeTrees[method]
 		tid := -1
-		var tparams route.Params
+		var tparams map[string]string
 		if ok {
 			leaf, params, found := tree.Match(path, header)
 			if found {
@@ -290,7 +319,7 @@ func VH_Router_serve() {
 				params["route"] = leaf.Route()
 				leaf.Handler()(w, req, params)
 				tid = vChains[0].id
-				tparams = params
+				tparams = vChains[0].params
 			}
 		}
 		vx.Assert(tid == impl || (tid == -1 && impl == -1), "C10: ServeHTTP and full tree matching choose the same route")
